@@ -256,7 +256,7 @@ func runRepLike(t *testing.T, cfg rlCfg, seed int64) sim.Result {
 		} else {
 			c.proto = respondent.NewProtocol()
 		}
-		rp := &hx.RecProto{Protocol: c.proto, Rec: s.Rec}
+		rp := &hx.RecProto{Protocol: c.proto, Rec: s.Rec, Early: true}
 		c.sock = protocol.MakeSocket(rp)
 		hx.Hook(c.sock, s.Rec, func(ev, name string, p mangos.Pipe) { c.id2p[p.ID()] = name })
 		must := func(err error) {
